@@ -310,15 +310,9 @@ func (u *Upload) InsertRecord(r *benchfmt.Result) error {
 }
 
 // insertLabel queues a label pair for insertion.
-// If there are enough labels queued, flush is called.
+// It never flushes: a record must stay queued until its last label
+// and its last result have been added (see InsertRecord).
 func (u *Upload) insertLabel(key, value string) error {
-	// N.B. sqlite3 has a max of 999 arguments.
-	// https://www.sqlite.org/limits.html#max_variable_number
-	if len(u.insertLabelArgs) >= 990 {
-		if err := u.flush(); err != nil {
-			return err
-		}
-	}
 	u.insertLabelArgs = append(u.insertLabelArgs, u.ID, u.recordid, key, value)
 	return nil
 }
@@ -328,14 +322,21 @@ func repeatDelim(s, delim string, n int) string {
 	return strings.TrimSuffix(strings.Repeat(s+delim, n), delim)
 }
 
-// insertMultiple executes a single INSERT statement to insert multiple rows.
+// insertMultiple executes INSERT statements to insert multiple rows,
+// as many rows per statement as the argument limit allows.
 func insertMultiple(tx *sql.Tx, sqlPrefix string, argsPerRow int, args []interface{}) error {
-	if len(args) == 0 {
-		return nil
+	// N.B. sqlite3 has a max of 999 arguments.
+	// https://www.sqlite.org/limits.html#max_variable_number
+	maxArgs := 990 / argsPerRow * argsPerRow
+	for len(args) > 0 {
+		n := min(len(args), maxArgs)
+		query := sqlPrefix + repeatDelim("("+repeatDelim("?", ", ", argsPerRow)+")", ", ", n/argsPerRow)
+		if _, err := tx.Exec(query, args[:n]...); err != nil {
+			return err
+		}
+		args = args[n:]
 	}
-	query := sqlPrefix + repeatDelim("("+repeatDelim("?", ", ", argsPerRow)+")", ", ", len(args)/argsPerRow)
-	_, err := tx.Exec(query, args...)
-	return err
+	return nil
 }
 
 // flush sends INSERT statements for any pending data in u.insertRecordArgs and u.insertLabelArgs.
